@@ -263,43 +263,61 @@ macro_rules! c18_harness {
    };
 }
 
+/// two `add`s with symbolic operands, then every element is looked up
+fn uf_two_adds_body() {
+   let mut uf = UnionFind::<u8>::default();
+   let (x, y) = (any_below(3), any_below(3));
+   let (fresh_x, idx) = uf.add(x);
+   let (fresh_y, idy) = uf.add(y);
+   assert!(fresh_x && fresh_y == (x != y));
+   assert!((idx == idy) == (x == y));
+   let a = any_below(3);
+   let fa = uf.find_item(&a);
+   assert!(fa.is_some() == (a == x || a == y));
+   assert!(uf.len() == 1 + (x != y) as usize && !uf.is_empty());
+   if a == x {
+      assert!(fa == Some(idx));
+   }
+   kani::cover!(x != y && a == y);
+   kani::cover!(true);
+   std::mem::forget(uf);
+}
+
+/// one `union_add` with symbolic operands, then every pair is compared
+fn uf_one_union_body() {
+   let mut uf = UnionFind::<u8>::default();
+   let (x, y) = (any_below(3), any_below(3));
+   let root = uf.union_add(x, y);
+   let (a, b) = (any_below(3), any_below(3));
+   let (fa, fb) = (uf.find_item(&a), uf.find_item(&b));
+   assert!(fa.is_some() == (a == x || a == y));
+   if let (Some(fa), Some(fb)) = (fa, fb) {
+      assert!(fa == fb && fa == root);
+      assert!(unsafe { uf.find(fa) } == fa);
+   }
+   assert!(uf.len() == 1 + (x != y) as usize);
+   kani::cover!(x != y && a == x && b == y);
+   kani::cover!(true);
+   std::mem::forget(uf);
+}
+
+/// Quick tier: what finishes.  Measured (Kani 0.68, table capacity 4, 14 GB cap):
+/// two adds 18 s; one union_add 152 s; one operation of symbolic kind + checks, or any two
+/// operations: CBMC out of memory; `TrRelUnionFind` with a single `add` over 2 elements: no
+/// verdict within 600 s.  The cost is in typed accesses at symbolic offsets into heap blocks
+/// (`Vec<Elem<T>>`, `Vec<HashSet<T>>`), about 50 K gates each.
 pub mod quick {
    use super::*;
-   c18_harness!(union_find_e2_ops2, 2, uf_body::<2, 2>());
-   c18_harness!(union_find_e3_ops2, 2, uf_body::<3, 2>());
-   c18_harness!(union_find_e3_ops3, 2, uf_body::<3, 3>());
-   c18_harness!(trrel_union_find_e2_ops2, 4, tr_body::<2, 2>(true));
+   c18_harness!(union_find_two_adds, 2, uf_two_adds_body());
+   c18_harness!(union_find_one_union, 2, uf_one_union_body());
 }
 
+/// thorough tier only; none of these produced a verdict when measured
 pub mod wide {
    use super::*;
+   c18_harness!(union_find_e2_ops2_wide, 2, uf_body::<2, 2>());
+   c18_harness!(union_find_e3_ops3_wide, 2, uf_body::<3, 3>());
    c18_harness!(union_find_e4_ops4_wide, 3, uf_body::<4, 4>());
-   c18_harness!(trrel_union_find_e3_ops2_wide, 5, tr_body::<3, 2>(true));
+   c18_harness!(trrel_union_find_e2_ops1_wide, 3, tr_body::<2, 1>(true));
    c18_harness!(trrel_union_find_e3_ops3_wide, 5, tr_body::<3, 3>(true));
-}
-
-pub mod dbg {
-   use super::*;
-   c18_harness!(uf_ops1, 2, uf_body::<2, 1>());
-   c18_harness!(tr_e2_ops1, 3, tr_body::<2, 1>(false));
-   c18_harness!(tr_e2_ops1_inv, 3, tr_body::<2, 1>(true));
-   c18_harness!(tr_e2_ops2, 3, tr_body::<2, 2>(false));
-   c18_harness!(uf_adds, 2, {
-      let mut uf = UnionFind::<u8>::default();
-      let (x, y) = (any_below(2), any_below(2));
-      uf.add(x);
-      uf.add(y);
-      let a = any_below(2);
-      assert!(uf.find_item(&a).is_some() == (a == x || a == y));
-      std::mem::forget(uf);
-   });
-   c18_harness!(uf_union_add, 2, {
-      let mut uf = UnionFind::<u8>::default();
-      let (x, y) = (any_below(2), any_below(2));
-      uf.union_add(x, y);
-      let (a, b) = (any_below(2), any_below(2));
-      let (fa, fb) = (uf.find_item(&a), uf.find_item(&b));
-      if fa.is_some() && fb.is_some() { assert!(fa == fb); }
-      std::mem::forget(uf);
-   });
 }
